@@ -435,7 +435,7 @@ func runCase(c *Case) *Result {
 func eventsAsAny(evs []splugin.Event) []any {
 	out := make([]any, len(evs))
 	for i, e := range evs {
-		m := map[string]any{"seq": e.Seq, "kind": e.Kind, "src": e.Src}
+		m := map[string]any{"seq": e.Seq, "kind": e.Kind, "src": e.Src, "t": e.T}
 		if e.Conn != 0 {
 			m["conn"] = e.Conn
 		}
